@@ -58,7 +58,12 @@ void h_ambi_sup(void) {
 		IN(bool, more); IN(size_t, l); IN(unsigned char, kind);
 		if (more && pos < n) {
 			ASSUME(l >= 1 && l <= n - pos);
-			token * x = mk_tok(kind == 0 ? TEXT_PLAIN : kind == 1 ? TEXT_NUMBER_POSS_LIST : kind == 2 ? TEXT_PERIOD : TEXT_EMPTY, pos, l);   /* TEXT_EMPTY stands for "any other kind" (the arm only tests for the two text kinds) */
+			#ifdef KIND_PLAIN
+			token * x = mk_tok(TEXT_PLAIN, pos, l);       /* concrete kind: symex then skips the other arms of the switch for these tokens */
+#else
+			token * x = mk_tok(kind == 0 ? TEXT_PLAIN : kind == 1 ? TEXT_NUMBER_POSS_LIST : kind == 2 ? TEXT_PERIOD : TEXT_EMPTY, pos, l);
+#endif
+			(void)kind;   /* TEXT_EMPTY stands for "any other kind" (the arm only tests for the two text kinds) */
 			last->next = x; x->prev = last; last = x; pos += l;
 		}
 	}
